@@ -4,9 +4,24 @@ import (
 	"fmt"
 	"sort"
 	"strings"
+	"sync"
 
 	"verifharness/hx"
 )
+
+var (
+	seenMu  sync.Mutex
+	seen    = map[string]int{}
+	failing int // failing cases so far, reported or repeated
+)
+
+// enough reports that the run has established its findings: further cases would
+// only repeat them (and, when the composite wedges, cost a deadline each).
+func enough(run *hx.Run) bool {
+	seenMu.Lock()
+	defer seenMu.Unlock()
+	return run.Findings() >= 20 || failing >= 40
+}
 
 type caseRunner func(run *hx.Run, model *hx.Model, u *universe, name string, script []string, report bool) caseOut
 
@@ -14,6 +29,22 @@ type caseRunner func(run *hx.Run, model *hx.Model, u *universe, name string, scr
 func handle(run *hx.Run, model *hx.Model, u *universe, rc caseRunner, name string, script []string) caseOut {
 	o := rc(run, model, u, name, script, true)
 	found := o.findings
+	key := o.what
+	if key == "" && !o.agree {
+		key = "disagreement"
+	}
+	if key != "" {
+		seenMu.Lock()
+		failing++
+		seen[key]++
+		n := seen[key]
+		seenMu.Unlock()
+		if n > 2 {
+			// reported (shrunk) twice already: count it, do not spend time on it again
+			run.Count("repeated finding: " + key)
+			return o
+		}
+	}
 	if o.what != "" || !o.agree {
 		small := hx.Shrink(script, 1, func(s []string) bool {
 			o2 := rc(run, model, u, name, s, false)
@@ -61,7 +92,7 @@ func positions(counts map[string]int) []string {
 
 func driveA(run *hx.Run, model *hx.Model, u *universe) {
 	bases := run.Scale(1200, 8000)
-	for i := 0; i < bases && run.Findings() < 20; i++ {
+	for i := 0; i < bases && !enough(run); i++ {
 		r := hx.NewRand(run.Seed, "C11", i)
 		base := genBaseA(r)
 		name := fmt.Sprintf("seed%d/a%d", run.Seed, i)
@@ -69,6 +100,9 @@ func driveA(run *hx.Run, model *hx.Model, u *universe) {
 		pos := positions(o.counts)
 		// every single call made to fail
 		for j, p := range pos {
+			if enough(run) {
+				break
+			}
 			meth := strings.Fields(p)[1]
 			ch := faultChoices(meth)
 			codes := []int{ch[r.Intn(len(ch))]}
@@ -100,9 +134,9 @@ func driveA(run *hx.Run, model *hx.Model, u *universe) {
 func exhaustiveA(run *hx.Run, model *hx.Model, u *universe) {
 	ops := []string{"get 0", "get 1", "getc 0", "put 0 0", "cput 0 0 B", "fm 0 1", "fm 1", "caps"}
 	wheres := []string{"A", "B", "AB", "-"}
-	strats := [][2]string{{"local", "local"}, {"noop", "noop"}}
+	strats := [][2]string{{"local", "local"}, {"noop", "noop"}, {"climit", "climit"}}
 	if run.Thorough() {
-		strats = append(strats, [2]string{"local", "noop"}, [2]string{"dedup", "dedup"}, [2]string{"climit", "climit"}, [2]string{"queued", "queued"})
+		strats = append(strats, [2]string{"local", "noop"}, [2]string{"dedup", "dedup"}, [2]string{"queued", "queued"})
 	}
 	// harness-only settings: plain; streaming replicas read chunk by chunk with Puts failing at commit time
 	modes := []string{"0", "0 1 1 chunks"}
@@ -116,7 +150,7 @@ func exhaustiveA(run *hx.Run, model *hx.Model, u *universe) {
 				for _, w1 := range wheres {
 					for _, o1 := range ops {
 						for _, o2 := range ops {
-							if run.Findings() >= 20 {
+							if enough(run) {
 								return
 							}
 							base := []string{fmt.Sprintf("#cfg a %s %s %s", st[0], st[1], md),
@@ -125,6 +159,9 @@ func exhaustiveA(run *hx.Run, model *hx.Model, u *universe) {
 							count++
 							o := handle(run, model, u, runCaseA, name, base)
 							for j, p := range positions(o.counts) {
+								if enough(run) {
+									return
+								}
 								handle(run, model, u, runCaseA, fmt.Sprintf("%s/f%d", name, j), withFaults(base, fmt.Sprintf("fault %s 14", p)))
 							}
 						}
